@@ -101,7 +101,7 @@ Qed.
 
 Lemma notify_frame w p a body p' o cl :
   notify_w w p a body = (p', o, cl) ->
-  p_id p' = p_id p /\ p_key p' = p_key p /\ p_chars p' = p_chars p.
+  p_id p' = p_id p /\ p_key p' = p_key p /\ p_chars p' = p_chars p /\ p_psn p' = p_psn p.
 Proof.
   unfold notify_w. destruct (p_key p) eqn:Ek; [|intros H; inversion H; subst; repeat split; congruence].
   destruct (p_sn p) eqn:Es; [|intros H; inversion H; subst; repeat split; congruence].
@@ -175,8 +175,8 @@ Proof.
   intros H. destruct (notify_w w p a body) as [[p' o] cl] eqn:E.
   destruct (list_eq_dec N.eq_dec [] []) as [_|]; [|congruence].
   assert (D : {p' = p} + {p' <> p}).
-  { destruct p as [i k s c], p' as [i' k' s' c'].
-    pose proof (notify_frame _ _ _ _ _ _ _ E) as (Hi & Hk & Hc). cbn in Hi, Hk, Hc. subst.
+  { destruct p as [i k s ps c], p' as [i' k' s' ps' c'].
+    pose proof (notify_frame _ _ _ _ _ _ _ E) as (Hi & Hk & Hc & Hps). cbn in Hi, Hk, Hc, Hps. subst.
     destruct s as [s|], s' as [s'|]; try (right; congruence); [|now left].
     destruct (N.eq_dec s s'); [left; congruence|right; congruence]. }
   destruct D as [->|Hne].
@@ -221,8 +221,8 @@ Proof.
   assert (D : (exists n pt, fresh_w w p a body n pt) \/ (forall n pt, ~ fresh_w w p a body n pt)).
   { destruct (notify_w w p a body) as [[q o'] cl'] eqn:E'. inversion E; subst.
     assert (Dq : {p' = p} + {p' <> p}).
-    { destruct p as [i k s c], p' as [i' k' s' c'].
-      pose proof (notify_frame _ _ _ _ _ _ _ E') as (Hi & Hk & Hc). cbn in Hi, Hk, Hc. subst.
+    { destruct p as [i k s ps c], p' as [i' k' s' ps' c'].
+      pose proof (notify_frame _ _ _ _ _ _ _ E') as (Hi & Hk & Hc & Hps). cbn in Hi, Hk, Hc, Hps. subst.
       destruct s as [s|], s' as [s'|]; try (right; congruence); [|now left].
       destruct (N.eq_dec s s'); [left; congruence|right; congruence]. }
     destruct Dq as [->|Hne]; [|left; apply Hiff; now left].
